@@ -22,6 +22,8 @@ pub enum TreeOp {
     File { path: String, size: usize, seed: u64 },
     /// symbolic link at `path`; `absolute` targets are made absolute below the workspace root
     Link { path: String, target: String, absolute: bool },
+    /// a named pipe (nobody ever writes to it)
+    Fifo(String),
 }
 
 #[derive(Clone, Debug, Serialize, Deserialize, PartialEq)]
@@ -63,6 +65,17 @@ fn build_tree(root: &Path, ops: &[TreeOp]) {
                     let _ = std::fs::create_dir_all(d);
                 }
                 let _ = std::fs::write(f, file_content(*size, *seed));
+            }
+            TreeOp::Fifo(p) => {
+                let f = root.join(p);
+                if let Some(d) = f.parent() {
+                    let _ = std::fs::create_dir_all(d);
+                }
+                if let Ok(c) = std::ffi::CString::new(f.to_string_lossy().as_bytes()) {
+                    unsafe {
+                        libc::mkfifo(c.as_ptr(), 0o600);
+                    }
+                }
             }
             TreeOp::Link { path, target, absolute } => {
                 let f = root.join(path);
@@ -256,7 +269,7 @@ pub fn run_recorder(t: &RecorderTrace, scratch: &Scratch) -> RecOutcome {
     let lstrip: Option<Vec<String>> = t.lstrip.as_ref().map(|v| v.iter().map(|p| p.replace("@WS", &ws.to_string_lossy())).collect());
     let materials_expect = expect_for(&paths, &lstrip, &algs);
     if let Some(r) = &t.run {
-        std::fs::write(scratch.side().join("actors").join(format!("{}.json", r.actor.id)), serde_json::to_vec(&r.actor).unwrap()).expect("actor script");
+        std::fs::write(scratch.side().join("actors").join(format!("{}.json", r.actor.id.replace('/', "_"))), serde_json::to_vec(&r.actor).unwrap()).expect("actor script");
     }
     let dev = std::fs::metadata(&ws).map(|m| m.dev()).unwrap_or(0);
     let t2 = t.clone();
@@ -564,7 +577,7 @@ fn exec_and_fold(t: &RecorderTrace, scratch: &Scratch, rec: &mut RunRecord, seed
 // ---------------------------------------------------------------------------------------------
 // generation
 // ---------------------------------------------------------------------------------------------
-const DIRS: &[&str] = &["d", "e", "sub dir", "d/inner", "\u{fc}n\u{ef}", ".hidden", "a/b/c", "empty"];
+const DIRS: &[&str] = &["d", "e", "sub dir", "d/inner", "\u{fc}n\u{ef}", ".hidden", "a/b/c", "empty", "d/d", "e/e/e"];
 const NAMES: &[&str] = &["f", "g.txt", "with space", ".dot", "\u{e9}t\u{e9}", "x.y.z", "-dash", "f2"];
 const SIZES: &[usize] = &[0, 1, 5, 1023, 1024, 1025, 2048, 8191, 8192, 8193, 100_000];
 
@@ -606,6 +619,8 @@ pub fn gen_trace(seed: u64, tier: Tier) -> RecorderTrace {
         let kind = r.below(8);
         let absolute = r.chance(1, 2);
         let (target, label): (String, &str) = match kind {
+            // the same target as the previous link now and then: two names for one file or directory
+            0 if li > 0 && !files.is_empty() => (files[0].clone(), "LINK-FILE"),
             0 | 1 => (r.pick(&files).clone(), "LINK-FILE"),
             2 | 3 => (r.pick(&dirs).clone(), "LINK-DIR"),
             4 if !links.is_empty() => (r.pick(&links).clone(), "LINK-CHAIN"),
@@ -621,6 +636,15 @@ pub fn gen_trace(seed: u64, tier: Tier) -> RecorderTrace {
         labels.push(format!("{}-{}", label, if absolute { "ABS" } else { "REL" }));
         tree.push(TreeOp::Link { path: lp.clone(), target: t, absolute });
         links.push(lp);
+    }
+    // a named pipe in the tree, and a link to it: neither is a regular file, both must be left alone
+    if r.chance(1, 25) {
+        let d = r.pick(&dirs).clone();
+        tree.push(TreeOp::Fifo(format!("{}/pipe", d)));
+        if r.chance(1, 2) {
+            tree.push(TreeOp::Link { path: format!("{}/to-pipe", d), target: "pipe".into(), absolute: false });
+        }
+        labels.push("FIFO-IN-TREE".into());
     }
     // path arguments
     let mut paths: Vec<String> = match r.weighted(&[30, 25, 15, 10, 10, 10]) {
